@@ -42,185 +42,3 @@ fn c10_level_distribution_new_contract() {
     let l = if kani::any() { Some(any_log_level()) } else { None };
     let _ = LevelDistribution::new(l);
 }
-
-fn any_ld() -> LevelDistribution {
-    let v: [u32; 8] = kani::any();
-    LevelDistribution {
-        non_log: v[0] as usize,
-        log_fatal: v[1] as usize,
-        log_error: v[2] as usize,
-        log_warning: v[3] as usize,
-        log_info: v[4] as usize,
-        log_debug: v[5] as usize,
-        log_verbose: v[6] as usize,
-        log_invalid: v[7] as usize,
-    }
-}
-
-fn pick_id(k: u8) -> String {
-    match k % 3 {
-        0 => String::from("A"),
-        1 => String::from("B"),
-        _ => String::from("C"),
-    }
-}
-
-fn id_index(s: &str) -> usize {
-    if s == "A" { 0 } else if s == "B" { 1 } else { 2 }
-}
-
-/// table with <= 2 entries with distinct ids from {A,B,C}; also returned as a dense 3x8 tally
-fn any_table() -> (Vec<(String, LevelDistribution)>, [[usize; 8]; 3], [bool; 3]) {
-    let mut t = Vec::new();
-    let mut tally = [[0usize; 8]; 3];
-    let mut present = [false; 3];
-    let n: u8 = kani::any();
-    kani::assume(n <= 2);
-    let k0: u8 = kani::any();
-    let k1: u8 = kani::any();
-    kani::assume(k0 < 3 && k1 < 3 && k0 != k1);
-    if n >= 1 {
-        let d = any_ld();
-        tally[k0 as usize] = ld_get(&d);
-        present[k0 as usize] = true;
-        t.push((pick_id(k0), d));
-    }
-    if n >= 2 {
-        let d = any_ld();
-        tally[k1 as usize] = ld_get(&d);
-        present[k1 as usize] = true;
-        t.push((pick_id(k1), d));
-    }
-    (t, tally, present)
-}
-
-fn table_matches(t: &Vec<(String, LevelDistribution)>, tally: &[[usize; 8]; 3], present: &[bool; 3]) -> bool {
-    let mut seen = [false; 3];
-    let mut i = 0;
-    while i < t.len() {
-        let k = id_index(&t[i].0);
-        if seen[k] || !present[k] {
-            return false;
-        }
-        seen[k] = true;
-        if ld_get(&t[i].1) != tally[k] {
-            return false;
-        }
-        i += 1;
-    }
-    seen[0] == present[0] && seen[1] == present[1] && seen[2] == present[2]
-}
-
-/// StatisticInfo::merge == independent per-id sum (ids from a 3-id alphabet, <= 2 entries per
-/// table, symbolic 32-bit counts), and the flag is the OR
-#[kani::proof]
-#[kani::unwind(6)]
-fn c10_merge_tables() {
-    let (a, ta, pa) = any_table();
-    let (b, tb, pb) = any_table();
-    let fa: bool = kani::any();
-    let fb: bool = kani::any();
-    let mut x = StatisticInfo { app_ids: a, context_ids: vec![], ecu_ids: vec![], contained_non_verbose: fa };
-    let y = StatisticInfo { app_ids: b, context_ids: vec![], ecu_ids: vec![], contained_non_verbose: fb };
-    x.merge(y);
-    let mut sum = [[0usize; 8]; 3];
-    let mut pres = [false; 3];
-    let mut i = 0;
-    while i < 3 {
-        let mut j = 0;
-        while j < 8 {
-            sum[i][j] = ta[i][j] + tb[i][j];
-            j += 1;
-        }
-        pres[i] = pa[i] || pb[i];
-        i += 1;
-    }
-    assert!(table_matches(&x.app_ids, &sum, &pres));
-    assert!(x.contained_non_verbose == (fa || fb));
-    assert!(x.context_ids.len() == 0 && x.ecu_ids.len() == 0);
-}
-
-/// the standard collector: one call adds exactly one count in the bucket of the level, for the
-/// ECU id (or "NONE"), the application id and the context id; other entries untouched
-#[kani::proof]
-#[kani::stub(alloc::fmt::format, fmt_stub)]
-#[kani::unwind(8)]
-fn c10_collector_two_messages() {
-    let mut c = StatisticInfoCollector::default();
-    let mut tally_app = [[0usize; 8]; 3];
-    let mut tally_ecu = [[0usize; 8]; 4]; // 3 = NONE
-    let mut any_nonverbose = false;
-    let mut total = 0usize;
-    let mut round = 0;
-    while round < 2 {
-        let level = if kani::any() { Some(any_log_level()) } else { None };
-        let ka: u8 = kani::any();
-        let ke: u8 = kani::any();
-        kani::assume(ka < 3 && ke < 4);
-        let verbose: bool = kani::any();
-        let has_ext: bool = kani::any();
-        let st = Statistic {
-            log_level: level,
-            storage_header: None,
-            standard_header: StandardHeader {
-                version: 1,
-                endianness: Endianness::Little,
-                has_extended_header: has_ext,
-                message_counter: 0,
-                ecu_id: if ke < 3 { Some(pick_id(ke)) } else { None },
-                session_id: None,
-                timestamp: None,
-                payload_length: 0,
-            },
-            extended_header: if has_ext {
-                Some(ExtendedHeader {
-                    verbose,
-                    argument_count: 0,
-                    message_type: match level { Some(l) => MessageType::Log(l), None => MessageType::Control(ControlType::Request) },
-                    application_id: pick_id(ka),
-                    context_id: pick_id(ka),
-                })
-            } else {
-                None
-            },
-            payload: &[],
-            is_verbose: verbose && has_ext,
-        };
-        let b = ref_bucket(&level);
-        tally_ecu[ke as usize][b] += 1;
-        if has_ext {
-            tally_app[ka as usize][b] += 1;
-        }
-        if !(verbose && has_ext) {
-            any_nonverbose = true;
-        }
-        total += 1;
-        match c.collect_statistic(st) {
-            Ok(()) => {}
-            Err(_) => { assert!(false); }
-        }
-        round += 1;
-    }
-    let info = c.collect();
-    assert!(info.contained_non_verbose == any_nonverbose);
-    // every entry equals the independent tally; ECU totals add up to the number of messages
-    let mut ecu_total = 0usize;
-    let mut i = 0;
-    while i < info.ecu_ids.len() {
-        let (id, d) = &info.ecu_ids[i];
-        let k = if id == "NONE" { 3 } else { id_index(id) };
-        assert!(ld_get(d) == tally_ecu[k]);
-        let g = ld_get(d);
-        let mut j = 0;
-        while j < 8 { ecu_total += g[j]; j += 1; }
-        i += 1;
-    }
-    assert!(ecu_total == total);
-    let mut i = 0;
-    while i < info.app_ids.len() {
-        let (id, d) = &info.app_ids[i];
-        assert!(ld_get(d) == tally_app[id_index(id)]);
-        i += 1;
-    }
-    assert!(info.app_ids.len() == info.context_ids.len());
-}
